@@ -343,8 +343,8 @@ func (e *eng) evalRandom(c Case) error {
 func (e *eng) generateAndRun() error {
 	o := e.o
 	r := common.NewRng(o.Seed)
-	nGroups := o.Budget(700, 14000)
-	nUDP := o.Budget(60, 1500)
+	nGroups := o.Budget(700, 10000)
+	nUDP := o.Budget(60, 1000)
 	nRR := o.Budget(300, 6000)
 	nRandom := o.Budget(60, 600)
 	idx := uint64(0)
@@ -398,6 +398,10 @@ func (e *eng) generateAndRun() error {
 			return err
 		}
 	}
+	d := e.rep.Distribution
+	e.rep.Note("excluded points: %d group cases had probes answering at or after the deadline (latency >= timeout, outside the theorems' hypothesis); on these the implementation is only required to hand out members and not to switch during a round (a breach would be listed as an oracle failure)", d["groups:excluded-points(latency>=timeout)"])
+	e.rep.Note("mean latency is ranked at nanosecond resolution over the fixed 32-round window (as the code computes it); in %d cases two clients' exact sums differed but their truncated means tied, and the first in configuration order was expected and served", d["groups:latency-ns-truncation-decides"])
+	e.rep.Note("the round-robin counter cannot be brought near 2^63 through the exported API; the wrap is covered by the Lean theorems rr_counter_wrap / rr_wrap_witness only")
 	return nil
 }
 
